@@ -56,7 +56,20 @@ def check_case(case, info=None):
     except Exception as ex:
         bad(f'raises/{type(ex).__name__}', f'{type(ex).__name__}: {ex} (dictionary sizes {[len(v) for v in cd.values()]})')
         return fails
-    neg = scs[0].tag_scores.dtype.type(-10e+32 if lnv is None else lnv)
+    if single and len(docs) == 1 and not isinstance(s2, list):
+        d2, s2 = [d2], [s2]         # (the one-sentence calling form may hand back the sentence itself)
+    if lnv is None:
+        # "the large negative value" when none is passed: the function's own default, whatever its spelling
+        import inspect
+        try:
+            lnv_default = inspect.signature(P.apply_category_filters).parameters['large_negative_value'].default
+            neg = scs[0].tag_scores.dtype.type(lnv_default)
+        except Exception:
+            neg = scs[0].tag_scores.dtype.type(-10e+32)
+        if not neg <= -1e10:
+            bad('large-negative-value', f'the default large negative value is {neg!r}')
+    else:
+        neg = scs[0].tag_scores.dtype.type(lnv)
     if len(d2) != len(docs) or len(s2) != len(docs):
         bad('shape', f'returned {len(d2)} documents / {len(s2)} score results for {len(docs)} sentences')
         return fails
@@ -236,16 +249,24 @@ def sweep_fails(only=None, stats=None):
         want_roots = [Category.parse(s) for s in inventory.targets(tname)]
         if roots != want_roots:
             bad(f'read_params/{cfgname}', 'root/tag categories differ from the targets file')
-        table = unary.keywords['unary_rules']
+        # the loaded tables are observed through the functions read_params returns (how they are bound to the
+        # functions is not looked at): every shipped unary rule fires, every 7th shipped seen pair is not filtered out
         for a, b in inventory.unary_rules('en_rebank' if tname == 'en_rebank' else lang):
-            if Category.parse(b) not in table.get(Category.parse(a), []):
+            try:
+                got_u = [r.cat for r in unary(Category.parse(a))]
+            except Exception as ex:
+                bad(f'read_params/{cfgname}', f'unary function raised {type(ex).__name__} on {a}')
+                break
+            if Category.parse(b) not in got_u:
                 bad(f'read_params/{cfgname}', f'unary rule {a} -> {b} not found in the loaded table')
-        seen = binary.keywords['seen_rules']
         pairs = inventory.seen_rules(tname)
         stats[f'seen_rules.{tname}'] = len(pairs)
+        from depccg.grammar import en as _en, ja as _ja
+        mod_ = _en if lang == 'en' else _ja
         for a, b in pairs[::7]:
-            key = (Category.parse(a).clear_features('X', 'nb'), Category.parse(b).clear_features('X', 'nb'))
-            if key not in seen:
+            ca, cb = Category.parse(a), Category.parse(b)
+            free = mod_.apply_binary_rules(ca, cb)
+            if free and not binary(ca, cb):
                 bad(f'read_params/{cfgname}', f'seen rule ({a}, {b}) not found in the loaded set')
                 break
         if has_dict:
